@@ -23,7 +23,7 @@ static uint8_t KEYS[2][48];
 
 /* =========================================================== Mantis schedule */
 
-enum { M_KEY, M_TWEAK, M_SWAP, M_BADTWEAK };
+enum { M_KEY, M_TWEAK, M_SWAP, M_BADTWEAK, M_USE };
 typedef struct { int type, a, b, c; } MOp;
 static MOp m_ops[64]; static int m_nops;
 static uint8_t M_TW[6][8]; static int M_TWNULL[6]; static int m_ntw;
@@ -51,6 +51,8 @@ static void m_build(void)
     }
     if (!m_par) for (i = 0; i < m_ntw; ++i) { m_ops[m_nops].type = M_TWEAK; m_ops[m_nops].a = i; ++m_nops; }
     m_ops[m_nops].type = M_SWAP; ++m_nops;
+    /* a use that names its own tweak: the schedule is a const argument, its stored tweak must survive */
+    if (!m_par) for (i = 1; i <= 2; ++i) { m_ops[m_nops].type = M_USE; m_ops[m_nops].a = i; ++m_nops; }
     if (!m_par) {
         int nul;
         for (nul = 0; nul < 2; ++nul) { m_ops[m_nops].type = M_BADTWEAK; m_ops[m_nops].a = 7; m_ops[m_nops].c = nul; ++m_nops; m_ops[m_nops].type = M_BADTWEAK; m_ops[m_nops].a = 9; m_ops[m_nops].c = nul; ++m_nops; }
@@ -78,6 +80,7 @@ static void m_opname(int op, char *buf, size_t n)
     case M_KEY: snprintf(buf, n, "set_key(K%d,rounds=%d,%s)", o->a, o->b, o->c ? "ENCRYPT" : "DECRYPT"); break;
     case M_TWEAK: snprintf(buf, n, "set_tweak(%s)", M_TWNULL[o->a] ? "NULL" : hexs(M_TW[o->a], 8)); break;
     case M_SWAP: snprintf(buf, n, "swap_modes"); break;
+    case M_USE: snprintf(buf, n, "ecb_crypt_tweaked(tweak %s)", hexs(M_TW[o->a], 8)); break;
     default: snprintf(buf, n, "INVALID set_tweak(%ssize %d)", o->c ? "NULL, " : "", o->a); break;
     }
 }
@@ -94,7 +97,7 @@ static void m_report(const char *cls, int op, const char *fmt, ...)
     char sig[200], detail[1200]; va_list ap;
     va_start(ap, fmt); vsnprintf(detail, sizeof(detail), fmt, ap); va_end(ap);
     snprintf(sig, sizeof(sig), "C03/mantis-%s/%s/%s", m_par ? "parallel" : "schedule", cls,
-             m_ops[op].type == M_KEY ? "set_key" : (m_ops[op].type == M_TWEAK ? "set_tweak" : (m_ops[op].type == M_SWAP ? "swap_modes" : "invalid-set_tweak")));
+             m_ops[op].type == M_KEY ? "set_key" : (m_ops[op].type == M_TWEAK ? "set_tweak" : (m_ops[op].type == M_SWAP ? "swap_modes" : (m_ops[op].type == M_USE ? "ecb_crypt_tweaked" : "invalid-set_tweak"))));
     violation(sig, mc_casedesc(), "%s | history: %s", detail, mc_history_text());
 }
 
@@ -118,6 +121,19 @@ static void m_apply(int op, int check)
         if (m_par) par_swap_modes(&MW.po); else LIB(mantis_swap_modes(&MW.ks));
         MW.mode = !MW.mode;
         break;
+    case M_USE: {
+        uint8_t blk[8], ref[8], real[8], b4[256], af[256]; size_t l1 = m_image(b4, sizeof(b4)), l2; int p;
+        for (p = 0; p < 8; ++p) {
+            lcg_fill(blk, 8, 310 + (uint32_t)p); blk[p] = (uint8_t)(0x11 * p);
+            if (MW.mode) ref_mantis_encrypt(KEYS[MW.ki], M_TW[o->a], MW.rounds, blk, ref);
+            else ref_mantis_decrypt(KEYS[MW.ki], M_TW[o->a], MW.rounds, blk, ref);
+            LIB(mantis_ecb_crypt_tweaked(real, blk, M_TW[o->a], &MW.ks));
+            ++g_cnt.evaluations;
+            if (check && memcmp(real, ref, 8) != 0) { m_report("behaviour", op, "per-call tweak %s, block %s: got %s, specification %s", hexs(M_TW[o->a], 8), hexs(blk, 8), hexs(real, 8), hexs(ref, 8)); break; }
+        }
+        l2 = m_image(af, sizeof(af));
+        if (check && (l1 != l2 || memcmp(b4, af, l1) != 0)) m_report("use-changed-schedule", op, "the (const) schedule changed during mantis_ecb_crypt_tweaked: before %s after %s", hexs(b4, l1), hexs(af, l2));
+        break; }
     default:
         LIB(r = mantis_set_tweak(&MW.ks, o->c ? NULL : M_TW[1], (unsigned)o->a));
         break;
@@ -150,6 +166,7 @@ static void m_apply(int op, int check)
     /* (b) behaviour == specification in the current mode with the last tweak, over a block family */
     {
         uint8_t blk[8], ref[8], real[64], tw8[64], in8[64]; int p, v;
+        uint8_t b4[256], af[256]; size_t l1 = m_image(b4, sizeof(b4)), l2;
         for (p = 0; p < 8; ++p) for (v = 0; v < 256; v += (tier_thorough() ? 1 : 5)) {
             lcg_fill(blk, 8, 300); blk[p] = (uint8_t)v;
             if (MW.mode) ref_mantis_encrypt(KEYS[MW.ki], MW.tweak, MW.rounds, blk, ref);
@@ -163,6 +180,8 @@ static void m_apply(int op, int check)
                 return;
             }
         }
+        l2 = m_image(af, sizeof(af));   /* the data calls take the schedule / object as const */
+        if (l1 != l2 || memcmp(b4, af, l1) != 0) m_report("use-changed-schedule", op, "the schedule image changed during data calls");
     }
 }
 
